@@ -29,6 +29,31 @@ package scen
 // every eviction / non-admission rule is the same for all shapes: what counts
 // is whether the call's own context was live when it was failed.
 //
+// Lookup kinds and incorrect answers (c12_value.go): a client lookup is, by a
+// drawn choice, a closest-peers lookup, GetValue or SearchValue — the property
+// says "a lookup query" / "an uncancelled lookup", not which kind. A scripted
+// peer may answer a GET_VALUE request (a) with closer peers only, (b) with
+// closer peers and a valid record filed under the requested key, or (c) with a
+// record filed under ANOTHER key. (c) is delivered as a reply, not as an
+// error, but it is not a correct answer to the request that was sent; the
+// clauses "admitted only after it has correctly answered a DHT request" and
+// "a member that fails a ... request during an uncancelled lookup ... is
+// removed" therefore treat it exactly like a failed request: no proof, and a
+// member that gave it to a search-phase request of a live lookup must be
+// absent at the next quiescent point (rules member-unproven and
+// lookup-fail-not-evicted, unchanged). Whether an answer is correct is decided
+// by the simulator from what it scripted, never from the error value the node
+// derives from it.
+//
+// Configured bootstrap peers (rt-bootstrap variant only, c12_value.go): by a
+// drawn choice the node is given a BootstrapPeers function naming one peer of
+// the universe — any peer: it may lack the DHT protocol, be rejected by the
+// routing-table filter, fail its probe, or not be connected. The node dials it
+// whenever its table is empty. Being configured and reachable is not a proof:
+// the admission clause has no exception for bootstrap peers, so member-unproven
+// applies to them unchanged. A failed bootstrap dial is not a dial "during a
+// lookup" and creates no obligation.
+//
 // crypto/rand: the refresh manager draws its per-bucket keys from
 // crypto/rand (kbucket.GenRandPeerID). The keys decide which members a refresh
 // lookup asks first, so normalising park labels would not be enough; the
@@ -72,6 +97,9 @@ func init() {
 			"fault_ctx_shaped_error_live_call", "probe_evict_ctx_shaped_fail",
 			"probe_admit_via_probe", "probe_admit_via_lookup", "probe_evict_lookup_fail", "probe_cancel_no_evict", "probe_evict_proto_removed", "probe_evict_refresh_probe",
 			"probe_refresh_answered_during_close", "probe_filter_rejected_proven", "probe_refresh_batched", "probe_refresh_after_close", "probe_proven_not_admitted", "probe_zero_peer_reply",
+			// c12_value.go: value lookups, incorrect answers, configured bootstrap peers
+			"probe_value_lookup_started", "probe_value_record_reply", "probe_corrective_put", "fault_wrong_key_record", "probe_evict_wrong_key_record", "probe_wrong_key_record_nonmember_kept_out",
+			"probe_bootstrap_configured", "probe_bootstrap_dial", "fault_bootstrap_dial_fail", "probe_bootstrap_connected_unproven", "probe_bootstrap_peer_already_connected",
 		}
 		return sc
 	}
@@ -154,7 +182,8 @@ type c12Cfg struct {
 	CheckConc         int
 	Focus             int // 0 general, 1 refresh-heavy, 2 lookup-heavy
 	CloseAfter        int
-	FailEighths       int // probability (in 1/8) that a released dial / request fails
+	FailEighths       int  // probability (in 1/8) that a released dial / request fails
+	Boot              bool // a BootstrapPeers function is configured (rt-bootstrap variant only)
 }
 
 // c12Peer is the simulator's model and timeline of one remote peer.
@@ -185,6 +214,7 @@ type c12Call struct {
 
 type c12Lookup struct {
 	tag      string
+	kind     int // c12Closest | c12GetValue | c12SearchValue
 	key      string
 	cancel   context.CancelFunc
 	evCancel context.CancelFunc
@@ -228,6 +258,9 @@ type c12Obl struct {
 	probe  string // stats key counted when the obligation was met non-vacuously
 	extra  string // a second such key (optional)
 	what   string
+	// keptOut: observation only — counts probe when the peer was not a member
+	// before the step and is not one after it
+	keptOut bool
 }
 
 type c12World struct {
@@ -243,6 +276,7 @@ type c12World struct {
 	peers  []*c12Peer
 	byID   map[peer.ID]*c12Peer
 	anchor *c12Peer // nil in the bootstrap variant
+	boot   *c12Peer // the configured bootstrap peer (nil: option not given)
 	// anchorFresh: a moment at which the anchor's last-successful-query stamp
 	// was certainly set (seeding, or a search-phase reply to a client lookup)
 	anchorFresh time.Duration
@@ -276,6 +310,11 @@ func genC12Cfg(s *sim.Sim, variant int) c12Cfg {
 	c.Focus = s.Draw("focus", 3)
 	c.CloseAfter = s.Range("close-after", 10, 220)
 	c.FailEighths = 1 + s.Draw("fail-eighths", 3)
+	if variant == c12Bootstrap {
+		// only where no refresh cycle runs: every dial the node starts on its own
+		// is then the connection attempt to the configured bootstrap peer
+		c.Boot = s.Chance("bootstrap-peers", 1, 2)
+	}
 	return c
 }
 
@@ -361,6 +400,7 @@ func newC12World(s *sim.Sim, cfg c12Cfg) (*c12World, error) {
 	if !cfg.Auto {
 		opts = append(opts, dht.DisableAutoRefresh())
 	}
+	opts = append(opts, w.valueAndBootstrapOpts()...)
 	if useFilter {
 		opts = append(opts, dht.RoutingTableFilter(func(_ any, p peer.ID) bool {
 			pm := w.byID[p]
@@ -401,8 +441,12 @@ func newC12World(s *sim.Sim, cfg c12Cfg) (*c12World, error) {
 			ndeny++
 		}
 	}
-	s.Summary["cfg"] = fmt.Sprintf("variant=%d N=%d K=%d alpha=%d beta=%d auto=%v interval=%v qtimeout=%v checkConc=%d focus=%d seeded=%d denied=%d failEighths=%d closeAfter=%d",
-		cfg.Variant, cfg.N, cfg.K, cfg.Alpha, cfg.Beta, cfg.Auto, cfg.Interval, cfg.QueryTimeout, cfg.CheckConc, cfg.Focus, nseed, ndeny, cfg.FailEighths, cfg.CloseAfter)
+	bootName := "-"
+	if w.boot != nil {
+		bootName = w.boot.p.Name
+	}
+	s.Summary["cfg"] = fmt.Sprintf("variant=%d N=%d K=%d alpha=%d beta=%d auto=%v interval=%v qtimeout=%v checkConc=%d focus=%d seeded=%d denied=%d failEighths=%d closeAfter=%d boot=%s",
+		cfg.Variant, cfg.N, cfg.K, cfg.Alpha, cfg.Beta, cfg.Auto, cfg.Interval, cfg.QueryTimeout, cfg.CheckConc, cfg.Focus, nseed, ndeny, cfg.FailEighths, cfg.CloseAfter, bootName)
 	return w, nil
 }
 
@@ -496,6 +540,10 @@ func (w *c12World) observe() {
 	// 3. obligations created by the step just executed
 	for _, o := range w.obl {
 		switch {
+		case o.keptOut:
+			if !w.prev[o.peer] && !now[o.peer] {
+				s.Count(o.probe)
+			}
 		case o.absent && now[o.peer]:
 			s.Violate(o.rule, "%s: %s is still a routing-table member at the next quiescent point", o.what, w.name(o.peer))
 		case o.absent && w.prev[o.peer]:
@@ -607,6 +655,10 @@ func (w *c12World) replyFor(to peer.ID, req *pb.Message) *pb.Message {
 		w.s.Count("fault_lying_reply")
 		near = append([]*simnet.Peer{w.u.Self, w.u.ByID(to)}, near...)
 	}
+	if req.GetType() == pb.Message_PUT_VALUE {
+		// a correct answer to PUT_VALUE echoes the record
+		return &pb.Message{Type: req.GetType(), Key: req.GetKey(), Record: req.GetRecord()}
+	}
 	if len(near) == 0 {
 		w.s.Count("probe_zero_peer_reply")
 	}
@@ -662,11 +714,15 @@ func (w *c12World) releaseAction(p *sim.Parked, observeCancel bool) sim.Action {
 			}
 			return err
 		}
+		wrongKey := false // the request was answered with a record filed under another key
 		absent := func(rule, probe, what string) {
 			n := len(w.obl)
 			w.mustBeAbsent(c.to, rule, probe, what)
 			if shaped && len(w.obl) > n {
 				w.obl[n].extra = "probe_evict_ctx_shaped_fail"
+			}
+			if wrongKey && len(w.obl) > n {
+				w.obl[n].extra = "probe_evict_wrong_key_record"
 			}
 		}
 		switch {
@@ -691,18 +747,45 @@ func (w *c12World) releaseAction(p *sim.Parked, observeCancel bool) sim.Action {
 				}
 				if live && c.tag != "" {
 					absent("lookup-fail-not-evicted", "probe_evict_lookup_fail", fmt.Sprintf("the dial to %s failed (error %q) in client lookup %s while its context was live", who, ferr, c.tag))
+				} else if c.tag == "" && w.cfg.Variant == c12Bootstrap {
+					// no refresh cycle in this variant: the node's own dial is the
+					// connection attempt to the configured bootstrap peer, which is not
+					// a dial "during a lookup": no obligation
+					s.Count("fault_bootstrap_dial_fail")
 				} else if live {
 					absent("refresh-dial-fail-not-evicted", "probe_evict_refresh_probe", fmt.Sprintf("a dial to %s made by the refresh (liveness probe or refresh lookup) failed (error %q) while its context was live", who, ferr))
 				}
 			} else {
 				s.Release(p, nil)
+				if c.tag == "" && w.cfg.Variant == c12Bootstrap {
+					s.Count("probe_bootstrap_dial")
+					if pm := w.byID[c.to]; pm != nil && pm.proofTick <= pm.absentTick {
+						// connected, configured, and nothing else: member-unproven keeps
+						// watching it
+						s.Count("probe_bootstrap_connected_unproven")
+					}
+				}
 			}
 		default: // rpc
 			r := p.Data.(*simnet.RPC)
+			isGet := r.Req.GetType() == pb.Message_GET_VALUE
 			if fails("rpc-fail") {
-				s.Count("fault_rpc_error")
-				ferr := failWith("request to "+who, errReqFailed)
-				s.Release(p, simnet.Reply{Err: ferr})
+				var ferr error
+				if isGet && s.Chance("wrong-key-record", 1, 2) {
+					// an incorrect answer instead of an error: same consequences
+					s.Count("fault_wrong_key_record")
+					wrongKey = true
+					ferr = errors.New("the reply carried a record filed under another key")
+					s.Tracef("  incorrect answer: record under another key")
+					s.Release(p, simnet.Reply{Msg: w.wrongKeyReply(c.to, r.Req)})
+					if live && c.search && !w.prev[c.to] {
+						w.keptOut(c.to, "probe_wrong_key_record_nonmember_kept_out")
+					}
+				} else {
+					s.Count("fault_rpc_error")
+					ferr = failWith("request to "+who, errReqFailed)
+					s.Release(p, simnet.Reply{Err: ferr})
+				}
 				if live && c.search {
 					absent("lookup-fail-not-evicted", "probe_evict_lookup_fail", fmt.Sprintf("the search-phase request to %s failed (error %q) in client lookup %s while its context was live", who, ferr, c.tag))
 				}
@@ -715,7 +798,16 @@ func (w *c12World) releaseAction(p *sim.Parked, observeCancel bool) sim.Action {
 					w.mustRemain(c.to, "", "obs_followup_fail_member_kept", "")
 				}
 			} else {
-				s.Release(p, simnet.Reply{Msg: w.replyFor(c.to, r.Req)})
+				reply := w.replyFor(c.to, r.Req)
+				if isGet && live {
+					// a record-carrying reply only while the call's context is live
+					// (see c12_value.go: hand-over of a value races with a cancelled context)
+					w.maybeAddRecord(reply, r.Req)
+				}
+				if r.Req.GetType() == pb.Message_PUT_VALUE {
+					s.Count("probe_corrective_put")
+				}
+				s.Release(p, simnet.Reply{Msg: reply})
 				if c.search && w.anchor != nil && c.to == w.anchor.p.ID {
 					w.anchorFresh = s.Now()
 				}
@@ -803,6 +895,9 @@ func c12CycleCall(p *sim.Parked) bool {
 		return false
 	}
 	if r, ok := p.Data.(*simnet.RPC); ok {
+		if r.Req.GetType() == pb.Message_PUT_VALUE {
+			return false // corrective put of a finished value lookup (runs on the node's context)
+		}
 		return string(r.Req.GetKey()) != string(r.To)
 	}
 	return p.Kind == "dial"
@@ -845,7 +940,7 @@ func (w *c12World) lastCycleCall(p *sim.Parked) bool {
 // loop, when busy, is always blocked on such a call.
 func (w *c12World) refreshLoopIdle() bool {
 	for _, p := range w.parkedCalls() {
-		if sim.TagOf(p.Ctx) == "" {
+		if sim.TagOf(p.Ctx) == "" && !c12CorrectivePut(p) {
 			return false
 		}
 	}
@@ -931,7 +1026,12 @@ func (w *c12World) envActions(pm *c12Peer) []sim.Action {
 func (w *c12World) startLookup() {
 	s := w.s
 	lk := &c12Lookup{tag: fmt.Sprintf("L%02d", len(w.lookups)), searchPending: map[peer.ID]bool{}}
+	lk.kind = s.Draw("lookup-kind", 3)
 	lk.key = fmt.Sprintf("key-%d", s.Draw("key", 64))
+	if lk.kind != c12Closest {
+		lk.key = "/r/" + lk.key // the namespace of the configured validator
+		s.Count("probe_value_lookup_started")
+	}
 	evCtx, evCancel := context.WithCancel(context.Background())
 	regCtx, evCh := dht.RegisterForLookupEvents(evCtx)
 	opCtx, cancel := context.WithCancel(sim.WithTag(regCtx, lk.tag))
@@ -946,7 +1046,7 @@ func (w *c12World) startLookup() {
 		}
 	}()
 	w.lookups = append(w.lookups, lk)
-	lk.op = w.ops.Go(s, "lookup "+lk.tag, func() (any, error) { return w.d.GetClosestPeers(opCtx, lk.key) })
+	lk.op = w.ops.Go(s, "lookup "+lk.tag, func() (any, error) { return w.runLookup(opCtx, lk) })
 }
 
 func (w *c12World) requestRefresh(force bool) *c12Refresh {
@@ -1191,7 +1291,7 @@ func (w *c12World) shutdown() {
 	}
 	for _, lk := range w.lookups {
 		if lk.op.Panic != "" {
-			s.Violate("panic", "GetClosestPeers panicked: %s", firstLine(lk.op.Panic))
+			s.Violate("panic", "%s panicked: %s", c12KindName[lk.kind], firstLine(lk.op.Panic))
 		} else if !lk.op.Done {
 			s.Violate("lookup-no-return", "client lookup %s did not return after its context was cancelled and everything parked was released", lk.tag)
 		}
